@@ -190,6 +190,7 @@ type World struct {
 	// ActorNames maps every actor id ever handed out to "c<slot>" / "c<slot>.<gen>".
 	ActorNames map[string]string
 
+	Raw    *rawWorld
 	Stats  *Stats
 	Log    []string
 	ctx    context.Context
